@@ -169,13 +169,22 @@ type NotConditions struct {
 	Exprs []Expression
 }
 
-// rawExprSQL returns the SQL text of a raw expression (Expr or NamedExpr)
+// rawExprSQL returns the SQL text of a raw expression (Expr or NamedExpr),
+// also when it is the only member of an And/Or condition
 func rawExprSQL(expr Expression) (string, bool) {
 	switch e := expr.(type) {
 	case Expr:
 		return e.SQL, true
 	case NamedExpr:
 		return e.SQL, true
+	case AndConditions:
+		if len(e.Exprs) == 1 {
+			return rawExprSQL(e.Exprs[0])
+		}
+	case OrConditions:
+		if len(e.Exprs) == 1 {
+			return rawExprSQL(e.Exprs[0])
+		}
 	}
 	return "", false
 }
